@@ -47,8 +47,11 @@ def check(run, prog, tier):
     mc = P(mr, param_at(mr, 2, "multicast"))
     # every helper method the endpoint class itself defines is spliced in (reply builders and whatever they
     # delegate to); the transmission primitive `send` stays a call event
-    own = lambda f: f.cls is not None and f.cls.qual == SVC and f.qual not in (send.qual, mr.qual) and f.kind == "method"
-    eng = engine(prog, InlineOnly(names=(ser.qual, spr.qual), pred=own, props=False, max_depth=4))
+    # (... and so are the pure matching predicates of config.Service and the endpoint's own properties, should a check be
+    # delegated to them: the decision must stay a formula over the message's fields and the endpoint's ids)
+    own = lambda f: f.cls is not None and ((f.cls.qual == SVC and f.qual not in (send.qual, mr.qual) and f.kind == "method")
+                                           or (f.cls.qual == "config.Service" and f.kind == "method" and f.name.startswith("matches_")))
+    eng = engine(prog, InlineOnly(names=(ser.qual, spr.qual), pred=own, props=True, max_depth=4))
     paths = eng.paths(mr, recv=SVC)
     run.paths += len(paths)
     mt = enum_members(prog, "header.SOMEIPMessageType")
@@ -153,6 +156,10 @@ def check(run, prog, tier):
                 return 0x1111
             if tm == ("attr", me, "version_major"):
                 return 3
+            if tm == ("attr", me, "instance_id"):
+                return 0x0001
+            if tm == ("attr", me, "version_minor"):
+                return 0
             if tm in fmap:
                 return fmap[tm]
             if tm[0] == "call" and tm[1] == ("attr", ("attr", me, "methods"), "get"):
